@@ -28,6 +28,19 @@ CLAIMED = {
         "DESIGN.md section 4, C01",
         "numpy / msgpack value semantics trusted.",
     ),
+    "C11": (
+        "NARROW structural claim: whole-array update shape, dihedral pivot wiring, fit/report pairing, view indexing, helper purity",
+        "Narrow claim, stated plainly: NONE of the numerical identities of C11 (distance preservation, orthogonality and determinant of "
+        "the constructed matrices, the dihedral reached, the RMSD value, pose independence) is decided - they are properties of the "
+        "algebra, not of the shape of the code. Decided are five structural necessary conditions whose failure breaks those clauses "
+        "for every input: translate/transform/rotate update the whole coordinate array with one operand derived from the argument; "
+        "rotate_dihedral rotates exactly the far side of the bond about atoms[1]->atoms[2] by (target - current) between a cancelling "
+        "translate pair; both alignment routines apply the rotation and return the RMSD of the same fit after centring; the "
+        "Substructure and Conformer coordinate views read and write the same rows; the rotation helpers do not mutate their "
+        "arguments and read no hidden state.",
+        "DESIGN.md sections 4 (C11) and 6",
+        "everything numerical in C11 is outside the technique (see the seeded changes C12-m1 and C13-m3 for the boundary).",
+    ),
     "C12": (
         "effect summaries over the resolved call graph + reachability of hidden state + data-flow facts",
         "Decides that Structure.join never writes its inputs (effect summaries: attribute/item stores, augmented assignment, "
@@ -220,7 +233,7 @@ CLAIMED = {
 }
 
 NOT_APPLICABLE = {
-    "C11": "every clause is a numerical identity over floating-point arrays (distances, orthogonality, determinant, "
+    "C11-numerical-note": "every clause is a numerical identity over floating-point arrays (distances, orthogonality, determinant, "
            "dihedral, RMSD); its truth is in the algebra, not in the shape of the code - deciding it would need "
            "evaluation or symbolic simplification (a different technique family). See DESIGN.md section 6.",
 }
